@@ -347,6 +347,23 @@ void profile_cfg_more(const std::string &prof, uint64_t seed, RunCfg &c, Rng &r)
         default: c.names.push_back("al"); break;                                                              // may have a host alias
       }
     }
+    {
+      // names with escaped dots: resolv.conf(5) counts the dots that "appear in a name", escaped or not, while the number of
+      // labels on the wire is smaller (own generator: leaves the configuration of existing seeds otherwise unchanged)
+      Rng er(hash_mix(c.seed * 0x9E3779B97F4A7C15ULL + 0xE5CD07, 12));
+      if (er.chance(0.6)) {
+        int ne = 1 + (int)er.below(3);
+        for (int i = 0; i < ne; i++) {
+          std::string b = "e" + std::to_string(i);
+          switch (er.below(4)) {
+            case 0: c.names.push_back(b + "\\.f"); break;              // one dot, escaped: a single label on the wire
+            case 1: c.names.push_back(b + ".f\\.g"); break;            // two dots, one of them escaped
+            case 2: c.names.push_back(b + "\\.f\\.g.h"); break;        // three dots, two escaped
+            default: c.names.push_back(b + "\\.f.g\\.h.i"); break;     // four dots, two escaped
+          }
+        }
+      }
+    }
     int f = 0;
     if (r.chance(0.7)) f |= ARES_FLAG_EDNS;
     if (r.chance(0.12)) f |= ARES_FLAG_NOSEARCH;
@@ -1455,7 +1472,10 @@ static void c12_walk(const Run &run, const std::vector<std::string> &cands, size
   if (o == O_SERVFAIL || o == O_REFUSED) {
     bool single = dots_in(w) == 0;
     bool rooted = !cands[i].empty() && cands[i].back() == '.';
-    if (single) c12_walk(run, cands, i + 1, qtype, addr_kind, wire, any_nodata, st, out);   // documented tolerance for single-label names
+    // a name whose only dots are escaped is one label on the wire but has dots in its text: the statement does not say which
+    // of the two the single-label tolerance looks at - either reading
+    bool esc_single = !single && dnsref::name_from_text(w).size() == 1;
+    if (single || esc_single) c12_walk(run, cands, i + 1, qtype, addr_kind, wire, any_nodata, st, out);   // documented tolerance for single-label names
     if (!single || rooted) { C12Alt a; a.wire = wire; a.status = {st}; out.push_back(a); }   // "name." : single label written absolutely - either reading
     return;
   }
@@ -1579,6 +1599,7 @@ static void c12_done(Run &run, Req &r) {
   run.note("search_walk_checked");
   if (cands.size() > 1) run.note("search_walk_multi_candidate");
   if (alias) run.note("search_alias_applied");
+  if (name.find('\\') != std::string::npos) { run.note("search_escaped_dot_name_checked"); if (cands.size() > 1 && dnsref::name_from_text(name).size() <= ndots && dots_in(name) >= ndots) run.note("search_escaped_dots_decide_order"); }
   if (alts.size() > 1) run.note("search_walk_set_valued");
   auto join = [](const std::vector<std::string> &v) { std::string o; for (auto &x : v) { std::string y = x.size() > 60 ? x.substr(0, 28) + ".." + x.substr(x.size() - 28) : x; o += (o.empty() ? "" : " , ") + y; } return o; };
   std::string ctx = std::string(req_kind_name[r.kind]) + " '" + (name.size() > 70 ? name.substr(0, 70) + ".." : name) + "' type " + std::to_string(qtype) + " ndots " + std::to_string(ndots) + " domains [" + join(dom) + "]" + ((flags & ARES_FLAG_NOSEARCH) ? " NOSEARCH" : "") + (alias ? " alias" : "");
@@ -2523,7 +2544,7 @@ const char *profile_rule(const std::string &prof) {
   if (prof == "C16") return "runs are seeded option masks and values (each option independently set or left to the system), server sets (IPv4/IPv6/link-local, default/equal/differing ports) given through one of five encodings, sortlists, domains, and virtual resolv.conf/nsswitch/environment contents that disagree with every user-set field; plans interleave traffic with ares_dup, save-options -> init-options, get-servers-csv -> set on a fresh channel, rewrites of the system files and ares_reinit, explicit setters; non-trivial = the user-settings invariant was evaluated and at least one copy/round-trip/reinit happened; distinct = distinct trace-shape hash";
   if (prof == "C14") return "a scenario is a seeded short plan (channel init with options and system files, 1..8 requests of all kinds driven to completion against a healthy network, cache hits, server-list edits, reinit, cancel, dup, save-options, destroy); it is executed once without failure to count its N allocator calls and then once per n in 1..N with exactly the n-th allocation failing (quick tier: at most --max-subs evenly spread n per scenario); evaluations counts executions; non-trivial = the injected failure was actually delivered; distinct = distinct trace-shape hash";
   if (prof == "C13") return "runs are seeded sets of getaddrinfo/gethostbyname/gethostbyaddr/getnameinfo requests (families, hint flags, ports, sortlists, lookup orders, hosts-file names, literals, localhost) against answers with 1..40 unique marker addresses, CNAME chains, other-family and foreign-class records in the answer section and address records in the additional section, with faults on the source-address discovery used for sorting; non-trivial = at least one DNS-answered address set was compared as a multiset with the accepted answers; distinct = distinct trace-shape hash";
-  if (prof == "C12") return "runs are seeded sets of search/getaddrinfo/gethostbyname requests over name shapes (0..4 dots, trailing dot, long labels, names that stop fitting once a domain is appended, host aliases) x ndots x domain lists (incl. root) x flags, with a per-candidate outcome (data, NODATA, NXDOMAIN, SERVFAIL, REFUSED, timeout) fixed by keyed hash; the question names seen at the virtual server and the final status are compared with an independent resolv.conf(5) reference; non-trivial = at least one request whose reference candidate list has more than one entry was checked; distinct = distinct trace-shape hash";
+  if (prof == "C12") return "runs are seeded sets of search/getaddrinfo/gethostbyname requests over name shapes (0..4 dots, trailing dot, escaped dots, long labels, names that stop fitting once a domain is appended, host aliases) x ndots x domain lists (incl. root) x flags, with a per-candidate outcome (data, NODATA, NXDOMAIN, SERVFAIL, REFUSED, timeout) fixed by keyed hash; the question names seen at the virtual server and the final status are compared with an independent resolv.conf(5) reference; non-trivial = at least one request whose reference candidate list has more than one entry was checked; distinct = distinct trace-shape hash";
   if (prof == "C05") return "runs are seeded histories of genuine traffic (loss, delay, duplicates, late replies, error rcodes, TC) with an off-path adversary injecting datagrams that differ from the would-be-valid reply in one respect (id, socket, source address, name, type, class, question count, letter case, cookie) at chosen instants of a query's life; every delivered datum carries a unique marker naming its packet; non-trivial = at least one forged packet was injected while traffic was processed; distinct = distinct trace-shape hash";
   if (prof == "C08") return "runs are seeded sequences of requests over a small name set (case / trailing-dot / flag / type variants, every API), responses with TTL mixes and negative answers, virtual-time advances around whole-second expiry instants, server-list changes and reinit; non-trivial = at least one request was answered without any transmission (a cache hit judged by the reference model); distinct = distinct trace-shape hash";
   if (prof == "C20") return "each seeded plan (batches of queued queries, answers up to several KiB, TC upgrades) is executed twice: once with whole-message always-writable transport and once with generated inbound chunking, partial writes, EAGAIN windows and zero-length datagrams; non-trivial = the two executions were compared and at least one short read/short write/EAGAIN/zero-length datagram actually occurred; distinct = distinct trace-shape hash of the segmented execution";
